@@ -447,6 +447,10 @@ func compoundCases(g *lib.ChainGen, idx int) []tamperCase {
 			c.Block.Receipts[i].Events = evs[:len(evs)-1]
 			c.Block.Receipts[i+1].Events = append([]*core.Event{last}, c.Block.Receipts[i+1].Events...)
 			add("move-event-to-next-receipt", fmt.Sprintf("last event of receipt %d moved to the front of receipt %d", i, i+1), c)
+			if formatOf(b.Block.ProtocolVersion) == "pre0132" {
+				// the Pedersen event leaf has no transaction hash: which receipt owns an event is not committed
+				out[len(out)-1].MustReject, out[len(out)-1].ObserveOnly, out[len(out)-1].Why = false, true, post07Why
+			}
 			break
 		}
 	}
@@ -604,16 +608,26 @@ func firstKeys[V any](m map[felt.Felt]V) []felt.Felt {
 	return ks
 }
 
+var post07CommittedRe = regexp.MustCompile(`^\.Block\.(Hash|ParentHash|Number|GlobalStateRoot|SequencerAddress|TransactionCount|EventCount|Timestamp)$` +
+	`|^\.Block\.Transactions|^\.Block\.Receipts$|^\.Block\.Receipts\[\]\.(TransactionHash$|Events)|^\.SU\.(BlockHash|NewRoot|OldRoot)$`)
+
+const post07Why = "not committed by the post-0.7 Pedersen block hash (protocol < 0.13.2): observed only"
+
 // singleFieldCases enumerates every single-field tampering of bundle idx.
 func singleFieldCases(g *lib.ChainGen, idx int) []tamperCase {
 	b := g.Bundles[idx]
+	old := formatOf(b.Block.ProtocolVersion) == "pre0132"
 	var out []tamperCase
 	for si, s := range enumerate(b) {
 		for _, m := range s.Muts {
 			c := tamper(b, si, m)
 			unc, why := uncommitted(s, m, b, c)
-			out = append(out, tamperCase{Name: "field:" + s.Norm + ":" + m, Detail: s.Path + " " + m, Bundle: c,
-				MustReject: !unc, Why: why})
+			tc := tamperCase{Name: "field:" + s.Norm + ":" + m, Detail: s.Path + " " + m, Bundle: c, MustReject: !unc, Why: why}
+			if old && !unc && !post07CommittedRe.MatchString(s.Norm) {
+				// the Pedersen formats commit far less (no receipts, prices, version string, state diff)
+				tc.MustReject, tc.ObserveOnly, tc.Why = false, true, post07Why
+			}
+			out = append(out, tc)
 		}
 	}
 	return out
@@ -677,6 +691,10 @@ func buildChain(f lib.Flags, task chainTask) (*lib.ChainGen, error) {
 			vi = len(opt.Versions) - 1
 		}
 		spec.Version = opt.Versions[vi]
+		if task.Chain >= 100 {
+			// the post-0.7 Pedersen format (Sepolia: First07Block = 0), transaction hashes verified (>= 0.11)
+			spec.Version = []string{"0.12.3", "0.13.0", "0.13.1"}[i*3/n]
+		}
 		if spec.Version == "0.13.2" && i%3 == 1 {
 			spec.Version = "0.13.3" // same hash format as 0.13.2
 		}
